@@ -156,6 +156,24 @@ pub fn run(a: &Args) {
         drop(fcache);
         drop(cache);
         std::mem::forget(mem);
+        // a source whose watcher ended (no event sender left) while its cache lives on: the
+        // reloader may leave or sleep, but it must not spin; the cache keeps answering
+        let mem = Mem::new(true);
+        mem.write("a", "x", b"1");
+        let cache = AssetCache::with_source(mem.clone());
+        cache.load::<TInt>("a").unwrap();
+        cache.hot_reload();
+        mem.drop_sender();
+        std::thread::sleep(Duration::from_millis(100));
+        let (n3, ticks3, states3) = sample(window);
+        evals += 1;
+        samples.push(format!("{{\"kind\": \"live cache whose source dropped its event sender\", \"reloader_tasks\": {n3}, \"max_ticks_in_window\": {ticks3}, \"states\": {}}}", jstr(&states3)));
+        if ticks3 > 1 {
+            violations.push(("reloader-busy-while-idle".into(), format!("cache alive, event sender dropped: {n3} reloader task(s), {ticks3} ticks in {window} ms, states {states3}")));
+        }
+        cache.hot_reload();
+        let _ = cache.load::<TInt>("a");
+        drop(cache);
     }
     std::thread::sleep(Duration::from_millis(200));
 
